@@ -562,6 +562,8 @@ class ExprMixin(object):
                 res.extend(self.do_slice(c, e.slice, st1, e))
                 continue
             dd = self.defaultdict_default(e.value, st1)
+            if dd is None and isinstance(c.ty, Map):
+                dd = getattr(self.reg, "defaultdict_types", {}).get(c.ty.key)
             for st2, k in self.ev(e.slice, st1):
                 if dd is not None and isinstance(c.ty, Map):
                     # defaultdict read: the default value where the key is absent (key insertion by reads not modelled)
